@@ -43,23 +43,23 @@ func Failf(key, format string, args ...any) *Fail {
 }
 
 type Ctx struct {
-	Prop    string
-	Tier    string // quick | thorough
-	Seed    int
-	Replay  string
-	Args    map[string]string
-	Level   string
-	start   time.Time
-	mu      sync.Mutex
-	viol    map[string]*violation // by key
-	known   []knownFinding
-	Assume  []string
-	Cov     map[string]any
-	samples []any
-	Deadline time.Time // internal deadline: never fails a check, ends with exhaustive:false
+	Prop        string
+	Tier        string // quick | thorough
+	Seed        int
+	Replay      string
+	Args        map[string]string
+	Level       string
+	start       time.Time
+	mu          sync.Mutex
+	viol        map[string]*violation // by key
+	known       []knownFinding
+	Assume      []string
+	Cov         map[string]any
+	samples     []any
+	Deadline    time.Time     // internal deadline: never fails a check, ends with exhaustive:false
 	Parallel    int           // worker goroutines of ParallelEnum (0 = NumCPU); whole-system runs mostly wait, so they use more
 	CaseTimeout time.Duration // watchdog per case (0 = none): a case running longer is a violation 'hang' (C14, C17)
-	capped  bool
+	capped      bool
 }
 
 type violation struct {
